@@ -18,7 +18,7 @@ def gen_config(rng, tier, versions=(0, 0, 1, 2), dims=(2, 2, 2, 3, 3, 4), bounda
     cfg = {
         "d": d, "lmin": lmin, "lmax": lmax, "a": a, "b": b, "box": kind,
         "version": rng.choice(versions),
-        "before_extend": rng.choice([0, 1, 1, 2, 3]),
+        "before_extend": rng.choice([0, 1, 1, 2, 3, 4]),
         "automatic": rng.random() < 0.35,
         "single_dim": rng.random() < 0.3,
         "boundary": rng.choice(boundary_choices),
